@@ -423,6 +423,58 @@ theorem new_endpoint_dtn (c : Nat) (ssp svc : Bytes) :
   · simp [Eid.node, dtnNodeName_ssp _ svc hns]
   · simp [Eid.serviceName, dtnServiceName_ssp _ svc hns]
 
+/-- `str::trim` leaves a non-empty string of digits alone -/
+theorem trim_digits (s : Bytes) (hne : s ≠ []) (hd : ∀ c ∈ s, isDigit c = true) : trim s = s := by
+  have notws : ∀ c : UInt8, isDigit c = true →
+      ¬ ((9 ≤ c.toNat ∧ c.toNat ≤ 13) ∨ c.toNat = 32) ∧ c.toNat ≠ 0xC2 ∧ c.toNat ≠ 0xE1 ∧ c.toNat ≠ 0xE2 ∧ c.toNat ≠ 0xE3
+        ∧ c.toNat ≠ 0x85 ∧ c.toNat ≠ 0xA0 ∧ c.toNat ≠ 0x80 ∧ c.toNat ≠ 0x9F ∧ ¬ (0x80 ≤ c.toNat ∧ c.toNat ≤ 0x8A)
+        ∧ c.toNat ≠ 0xA8 ∧ c.toNat ≠ 0xA9 ∧ c.toNat ≠ 0xAF := by
+    intro c hc
+    simp only [isDigit, Bool.and_eq_true, decide_eq_true_eq] at hc
+    omega
+  have hstart : trimStart (s.length + 1) s = s := by
+    cases hs : s with
+    | nil => exact absurd hs hne
+    | cons a rest =>
+      have ha := notws a (hd a (by simp [hs]))
+      have : wsPrefixLen (a :: rest) = 0 := by
+        obtain ⟨h1, h2, h3, h4, h5, _⟩ := ha
+        unfold wsPrefixLen
+        simp only [h1, h2, h3, h4, h5, if_false, false_and]
+        cases rest with
+        | nil => rfl
+        | cons b r2 => cases r2 <;> rfl
+      simp [trimStart, this]
+  have hrevne : s.reverse ≠ [] := by simpa using hne
+  have hend : trimEndRev (s.length + 1) s.reverse = s.reverse := by
+    cases hs : s.reverse with
+    | nil => exact absurd hs hrevne
+    | cons a rest =>
+      have ham : a ∈ s := by
+        have : a ∈ s.reverse := by rw [hs]; simp
+        simpa using this
+      have ha := notws a (hd a ham)
+      have : wsSuffixLenRev (a :: rest) = 0 := by
+        obtain ⟨h1, _, _, _, _, h85, hA0, h80, h9F, hr, hA8, hA9, hAF⟩ := ha
+        unfold wsSuffixLenRev
+        simp only [h1, h85, hA0, h80, h9F, hr, hA8, hA9, hAF, if_false, and_false, or_false, false_or]
+        cases rest with
+        | nil => rfl
+        | cons b r2 => cases r2 <;> rfl
+      simp [trimEndRev, this]
+  unfold trim
+  rw [hstart, hend, List.reverse_reverse]
+
+/-- **C10 (sibling endpoint, ipn).** For an ipn endpoint ID, deriving a sibling with service number
+    `svc` (given in decimal) keeps the node number and reports the new service. -/
+theorem new_endpoint_ipn (c node s0 svc : Nat) (hn : 1 ≤ node) (hs : svc < U64) :
+    ∃ e', (Eid.ipn c node s0).newEndpoint (decStr svc) = .ok e' ∧ e'.node = some (decStr node) ∧
+      e'.serviceName = (if svc = 0 then none else some (decStr svc)) := by
+  refine ⟨.ipn 2 node svc, ?_, rfl, rfl⟩
+  have ht : trim (decStr svc) = decStr svc := trim_digits _ (decStr_ne_nil svc) (C13.decStr_digits svc)
+  simp only [Eid.newEndpoint, ht, parseU64_decStr svc hs, withIpn]
+  rw [if_pos hn]
+
 /-- non-vacuity -/
 example : EidRange (.dtn 1 (dtnSsp (asc "node1") (asc "in/box"))) := ⟨rfl, dtnSsp_ok _ _⟩
 example : parseEid (asc "dtn://node1/in/box") = .ok (.dtn 1 (asc "//node1/in/box")) := by decide
